@@ -11,6 +11,15 @@ CLAIMED = {
             "functions are listed as not yet under contract in the evidence.",
             PYVC_NOTE + " Stable-sort insertion axiom for sorted(); LiveRange.set_address treated as returning its argument.",
             "contract-based deductive verification (symbolic execution of real AST + SMT, loop invariants, heap model)", "DESIGN.md 3/C05"),
+    "C06": ("Unbounded proof of the emitter's representation invariant (what each register machine remembers equals what a decoder of the "
+            "emitted words holds, so eliding a repeated write is sound for every history), of the word format of cmd0/cmd1/wait/op words, "
+            "and, for the register generators under contract, that the decoded register file equals the operation's fields, that every value "
+            "passed to the emitter fits its 16/32-bit field (call-site obligations = no truncation) and that alignment errors are raised "
+            "exactly when a stride/length/address is misaligned; exactly one kick-off word per operation, never NPU_OP_STOP.",
+            PYVC_NOTE + " Ghost field `decoded` is updated by ghost statements at the two append sites (reviewed to mirror the decoder); "
+            "legal(op) ranges are the contract preconditions printed in the evidence; generate_common / per-op generators / generate_command_stream "
+            "composition are not yet under contract in this revision.",
+            "contract-based deductive verification (heap model with maps, ghost state, opaque invariants, modular calls)", "DESIGN.md 3/C06"),
     "C09": ("Unbounded proof, per function and per numeric argument type, that quantise_scale & co compute exactly the TFLite "
             "reference multiplier/shift (bit-exact IEEE-754 reasoning in z3 FloatingPoint + bit-vectors) and the stated error/range bounds; "
             "average-pool divisor lemma per window-size class for all accumulators below 2**30; a forall-statement tests can only sample.",
@@ -55,6 +64,6 @@ NOT_APPLICABLE = {
     "C13": "totality of the whole compiler; per-function no_exception obligations do not decide it (DESIGN 4)",
     "C14": "2-safety over process histories and global mutable state (DESIGN 4)",
     "C16": "pipeline-emergent placement and natural-language report text (DESIGN 4)",
-    "C02": PLANNED, "C04": PLANNED, "C06": PLANNED, "C08": PLANNED, 
+    "C02": PLANNED, "C04": PLANNED, "C08": PLANNED, 
     
 }
